@@ -25,6 +25,10 @@
     every free of a held block succeeds. K1 needs a free of *part* of a huge allocation, which
     these callers do not issue; `k1_spin_panics` shows that the restriction is necessary.
 
+  * `conc_successful_get_allowed` — the last clause of the property ("every successful
+    allocation returns a block the ownership model allows") for the public `LLFree::get`, every
+    path, under every interleaving: the block is aligned and none of its frames was held.
+
   PARTIAL: for the upper level (tree counters, reservations) and for partial frees of huge
   allocations panic-freedom under every interleaving is not a theorem. Explored by the trace co-simulation (preemption-bounded DFS, random schedules, freeze
   experiments), with panic capture and the "free of a held block succeeded" oracle; the event
@@ -36,6 +40,7 @@ import LLFreeV.Props.C02
 import LLFreeV.Proofs.UpperInit
 import LLFreeV.Proofs.OwnThreads
 import LLFreeV.Proofs.OwnLowerThreads
+import LLFreeV.Proofs.OwnUpperThreads
 namespace LLFree.C03
 open LLFree
 
@@ -122,5 +127,11 @@ theorem conc_lower_put_of_held_succeeds (g : Geom) (ok : GeomOk16 g) (gh : Gh) (
     (hal : frame % 2 ^ order = 0) (hown : ∀ f, inBlockF frame (2 ^ order) f = true → gh.ownS f = true) :
     SafeL true g (fun r gh' => r = .ok () ∧ gh' = gh.subS frame (2 ^ order)) gh (Lower.put g retries frame order) :=
   putL_small ok gh retries frame order ho hal hown
+
+/-- **A successful public `get` returns a block the ownership model allows, in every
+    interleaving**: aligned, and none of its frames (small order) / huge frames (huge order) was
+    held by the calling thread — nor by any other, by the disjointness invariant (C01). -/
+theorem conc_successful_get_allowed (c : Cfg) (ok : GeomOk16 c.geom) (gh : Gh) (frame : Option Nat) (r : Request) :
+    SafeL false c.geom (UGetPost c.geom gh r.order) gh (get c frame r) := get_L c ok gh frame r
 
 end LLFree.C03
